@@ -1331,6 +1331,14 @@ func isHandReplay(path string) bool {
 	return err == nil && json.Unmarshal(data, &probe) == nil && len(probe) > 0 && probe[0].Hand
 }
 
+func isUnifiedReplay(path string) bool {
+	var probe []struct {
+		Unified bool `json:"unified"`
+	}
+	data, err := os.ReadFile(path)
+	return err == nil && json.Unmarshal(data, &probe) == nil && len(probe) > 0 && probe[0].Unified
+}
+
 func isCopyReplay(path string) bool {
 	var probe []struct {
 		Copy bool `json:"copy"`
@@ -1355,6 +1363,7 @@ func main() {
 	hsaco := flag.String("codeobj", "", "code-object stream: path of amd/driver/memcopy.hsaco")
 	handN := flag.Int("hand", 0, "hand-ticked histories over the model's command kinds (noop, kernel, zero-byte copy)")
 	copyN := flag.Int("copy", 0, "copy mode: number of hand-ticked multi-queue copy cases")
+	uniN := flag.Int("unified", 0, "unified mode: number of hand-ticked cases with multi-request commands (unified multi-GPU kernels)")
 	stressS := flag.Float64("stress", 0, "run the un-instrumented stress loop for this many seconds")
 	stressW := flag.Int("workers", 8, "")
 	stressMix := flag.Bool("mix", false, "stress: asynchronous commands and a shared queue as well")
@@ -1390,6 +1399,20 @@ func main() {
 		for _, c := range cases {
 			c.Stuck, c.Panic, c.NotComparable = "", "", ""
 			runHandCase(c)
+		}
+		result = cases
+	case *uniN > 0:
+		result = unifiedCases(*seed, *uniN)
+	case *replay != "" && isUnifiedReplay(*replay):
+		var cases []*UCase
+		data, _ := os.ReadFile(*replay)
+		if err := json.Unmarshal(data, &cases); err != nil {
+			fmt.Fprintln(os.Stderr, err)
+			os.Exit(2)
+		}
+		for _, c := range cases {
+			c.Events, c.Sent, c.Answers, c.Partial, c.Violation, c.Panic, c.Coq = nil, nil, 0, 0, "", "", ""
+			runUnifiedCase(c)
 		}
 		result = cases
 	case *replay != "" && isCopyReplay(*replay):
